@@ -19,9 +19,19 @@ pub proof fn lemma_vx_seq_sum_bounds(s: Seq<usize>, lo: int, hi: int)
     decreases s.len(),
 {
     if s.len() > 0 {
-        lemma_vx_seq_sum_bounds(s.drop_last(), lo, hi);
-        assert(lo * (s.len() - 1) + lo == lo * s.len()) by (nonlinear_arith);
-        assert(hi * (s.len() - 1) + hi == hi * s.len()) by (nonlinear_arith);
+        let t = s.drop_last();
+        let n = s.len() as int;
+        assert(vx_all_between(t, lo, hi)) by {
+            assert forall|i: int| 0 <= i < t.len() implies lo <= #[trigger] t[i] <= hi by { assert(t[i] == s[i]); }
+        }
+        lemma_vx_seq_sum_bounds(t, lo, hi);
+        assert(t.len() == n - 1);
+        assert(vx_seq_sum(s) == vx_seq_sum(t) + s.last() as int);
+        assert(lo <= s[n - 1] <= hi);
+        assert(lo * (n - 1) + lo == lo * n) by (nonlinear_arith);
+        assert(hi * (n - 1) + hi == hi * n) by (nonlinear_arith);
+    } else {
+        assert(lo * 0 == 0 && hi * 0 == 0);
     }
 }
 
@@ -37,7 +47,7 @@ impl<T> VxIterSource<T> for Vec<T> {
     fn vx_iter(&self) -> (r: VxIter<&T>)
         ensures
             r@.len() == self@.len(),
-            forall|i: int| 0 <= i < self@.len() ==> *(#[trigger] r@[i]) == self@[i],
+            forall|i: int| #![trigger r@[i]] #![trigger self@[i]] 0 <= i < self@.len() ==> *(r@[i]) == self@[i],
     { unimplemented!() }
 }
 
